@@ -73,7 +73,7 @@ SymM  == {Sy("in", "buy", a, 0, 1, ac, 0) : a \in 1..2, ac \in AcctM}
          \cup {Sy("out", "sell", 1, f, 1, ac, 0) : f \in 0..1, ac \in AcctM}
          \cup {Sy("intra", "move", a, 0, 1, s, d) : a \in 1..2, s \in AcctM, d \in AcctM}
          \cup {Sy("intra", "move", 2, 1, 1, 11, 21), Sy("intra", "move", 2, 1, 1, 12, 12)}
-InstM == <<At(100, Noon), At(101, Noon), At(102, Noon)>>
+InstM == <<At(100, 32400), At(100, 61200), At(101, 32400), At(102, Noon)>>   \* two instants within one day: transient overdrafts
 
 (* Y: several calendar years and holding periods on both sides of one year *)
 SymY  == {Sy("in", ty, 2, 0, p, 11, 0) : ty \in {"buy", "interest"}, p \in 1..2}
@@ -94,11 +94,32 @@ SymV  == {Sy("in", "buy", 2, 0, 2, 11, 0),
           Sy("out", "donate", All, 0, 3, 11, 0)}
 InstV == <<At(100, Noon), At(101, Noon), At(600, Noon)>>
 
+(* F: acquisitions with a crypto fee (spreadsheet input only): the artificial fee-only     *)
+(* disposal of C11 takes part in lot matching and balances                                *)
+SymF  == {[Sy("in", "buy", a, f, 2, 11, 0) EXCEPT !.vin = v] : a \in 2..3, f \in 0..1, v \in {-1, 7}}
+         \cup {Sy("in", "interest", 2, 0, 3, 11, 0), Sy("in", "buy", 2, 1, 1, 21, 0)}
+         \cup {Sy("out", "sell", a, 0, 2, 11, 0) : a \in {All, 1}}
+         \cup {Sy("out", "gift", 1, 1, 2, 11, 0), Sy("intra", "move", 2, 1, 2, 11, 21)}
+InstF == <<At(150, Noon), At(151, Noon), At(600, Noon)>>
+
+(* Z: one non-UTC offset for the whole history (-5 h or +9 h) and instants within a few   *)
+(* hours of midnight UTC, so that every transaction's own calendar date (and, at new      *)
+(* year, its year) differs from its UTC date; two accounts, income, transfers             *)
+SymZ  == {Sy("in", ty, 2, 0, p, 11, 0) : ty \in {"buy", "interest"}, p \in 1..2}
+         \cup {Sy("out", ty, 1, 0, 3, 11, 0) : ty \in {"sell", "gift"}}
+         \cup {Sy("out", "sell", All, 0, 3, 11, 0), Sy("intra", "move", 1, 0, 3, 11, 21), Sy("intra", "move", 2, 1, 3, 11, 21)}
+InstZ == <<At(300, 3600), At(300, 79200), At(301, 79200), At(365, 3600), At(365, 79200), At(500, 3600)>>
+OffZ  == {-18000, 32400}
+
 Symbols  == CASE Slice = "A" -> SymA [] Slice = "B" -> SymB [] Slice = "C" -> SymC [] Slice = "D" -> SymD
               [] Slice = "T" -> SymT [] Slice = "M" -> SymM [] Slice = "Y" -> SymY [] Slice = "V" -> SymV
+              [] Slice = "F" -> SymF [] Slice = "Z" -> SymZ
 Instants == CASE Slice = "A" -> InstA [] Slice = "B" -> InstB [] Slice = "C" -> InstC [] Slice = "D" -> InstD
               [] Slice = "T" -> InstT [] Slice = "M" -> InstM [] Slice = "Y" -> InstY [] Slice = "V" -> InstV
-Offs     == IF Slice = "C" THEN OffC ELSE {0}
+              [] Slice = "F" -> InstF [] Slice = "Z" -> InstZ
+Offs     == IF Slice = "C" THEN OffC
+            ELSE IF Slice = "Z" THEN (IF hist = << >> THEN OffZ ELSE {hist[1].off})
+            ELSE {0}
 
 ---------------------------------------------------------------------------
 Holding(h) == LET E == Expand(h)
